@@ -186,4 +186,106 @@ theorem gourdon_core (wide : Bool) (x : ℕ) (threads : ℤ) (ay az : ℚ) (fo :
     · rw [isqrtN_eq]; exact_mod_cast q3
     · rw [hn]; exact_mod_cast q2
 
+/-! ### Claim B assembled: `x / y` fits `int64_t` after the range check -/
+
+theorem gY_cases {x : ℕ} (h64 : 64 ≤ x) (v : ℤ) :
+    (irootN 3 x : ℤ) + 1 ≤ gY x v ∧ (gY x v = (isqrtN x : ℤ) - 1 ∨ v ≤ gY x v) := by
+  have hgap : ((irootN 3 x : ℕ) : ℤ) + 2 ≤ ((isqrtN x : ℕ) : ℤ) := by exact_mod_cast root_gap x h64
+  have : (0 : ℤ) ≤ (irootN 3 x : ℤ) := by positivity
+  unfold gY clampY
+  omega
+
+theorem xy_fits_of_range_check {x : ℕ} {ay : ℚ} {fo : GFloats} (hx2 : 2 ≤ x) (hx125 : x < 2 ^ 125)
+    (hay1 : 1 ≤ ay) (hvN : TruncNear ((irootN 3 x : ℚ) * ay) fo.v) (hm : MaxXNear ay fo.maxX)
+    (hxm : (x : ℤ) ≤ fo.maxX) : (x : ℤ) / gY x fo.v ≤ i64Max := by
+  obtain ⟨_, _, hy1⟩ := gY_le x fo.v
+  have hkey : (x : ℤ) < 2 ^ 63 * gY x fo.v := by
+    by_cases h63 : x < 2 ^ 63
+    · have : (x : ℤ) < 2 ^ 63 := by exact_mod_cast h63
+      nlinarith
+    · push Not at h63
+      have h64 : 64 ≤ x := le_trans (by norm_num) h63
+      obtain ⟨hyc, hycase⟩ := gY_cases h64 fo.v
+      by_cases h93 : x < 2 ^ 93
+      · obtain ⟨n, hn⟩ := Int.eq_ofNat_of_zero_le (le_trans zero_le_one hy1)
+        have hcn : irootN 3 x ≤ n := by omega
+        have := lt_two63_mul_of_mid h63 h93 hcn
+        rw [hn]; exact_mod_cast this
+      · push Not at h93
+        rcases hycase with hys | hyv
+        · -- y = s − 1
+          rw [hys]
+          have hs : isqrtN x < 3 * 2 ^ 61 := isqrt_lt_of_lt (lt_trans hx125 (by norm_num))
+          have hlt := lt_s_succ_sq x
+          have hs7 : 7 ≤ isqrtN x := by
+            by_contra h
+            push Not at h
+            have : (isqrtN x + 1) * (isqrtN x + 1) ≤ 7 * 7 := Nat.mul_le_mul (by omega) (by omega)
+            omega
+          set s := isqrtN x
+          have h1 : (s + 1) * (s + 1) ≤ 2 ^ 63 * (s - 1) := by
+            calc (s + 1) * (s + 1) ≤ (s + 1) * (3 * 2 ^ 61) := Nat.mul_le_mul_left _ (by omega)
+              _ = (3 * (s + 1)) * 2 ^ 61 := by ring
+              _ ≤ (4 * (s - 1)) * 2 ^ 61 := Nat.mul_le_mul_right _ (by omega)
+              _ = 2 ^ 63 * (s - 1) := by ring
+          have h2 : x < 2 ^ 63 * (s - 1) := lt_of_lt_of_le hlt h1
+          have h3 : ((s - 1 : ℕ) : ℤ) = (s : ℤ) - 1 := by rw [Nat.cast_sub (by omega)]; simp
+          rw [← h3]; exact_mod_cast h2
+        · -- y ≥ v
+          apply lt_two63_mul_of_env h93 hm hxm (by linarith)
+          have : (fo.v : ℚ) ≤ (gY x fo.v : ℚ) := by exact_mod_cast hyv
+          linarith [hvN.1]
+  have hpos : (0 : ℤ) < gY x fo.v := by omega
+  have : (x : ℤ) / gY x fo.v < 2 ^ 63 := Int.ediv_lt_of_lt_mul hpos hkey
+  unfold i64Max; omega
+
+/-- `pi_gourdon_128`: the range check accepts ⇒ every check passes and the ranges hold -/
+theorem gourdon128_accept (x : ℕ) (threads : ℤ) (ay az : ℚ) (fo : GFloats)
+    (hx2 : 2 ≤ x) (hx : x < 2 ^ 127) (henv : GourdonEnv x ay az fo) (hxm : (x : ℤ) ≤ fo.maxX) :
+    gourdonL2 true x threads fo = .ok (gOutPure true x threads fo) ∧
+    GourdonRange x threads (gOutPure true x threads fo) := by
+  have henv' := henv
+  obtain ⟨hay1, hay, _, _, hvN, _, hm, _⟩ := henv'
+  have hx125 : x < 2 ^ 125 := x_lt_of_range_check (by linarith) hay hm hxm
+  have hmlt := maxX_lt_of_env hx (by linarith) hay hm
+  apply gourdon_core true x threads ay az fo hx2 hx125 henv
+  · intro _
+    exact ⟨le_trans (by unfold i128Min; norm_num) hm.1, by unfold i128Max; omega, hxm⟩
+  · exact xy_fits_of_range_check hx2 hx125 hay1 hvN hm hxm
+  · intro h; exact absurd h (by simp)
+  · intro h; exact absurd h (by simp)
+
+/-- `pi_gourdon_128`: the range check rejects ⇒ `primecount_error` -/
+theorem gourdon128_reject (x : ℕ) (threads : ℤ) (fo : GFloats) (hx : x < 2 ^ 127) (hm0 : 0 ≤ fo.maxX)
+    (hxm : fo.maxX < (x : ℤ)) : gourdonL2 true x threads fo = .error .range := by
+  have h2 : fo.maxX ≤ i128Max := by
+    have : (x : ℤ) < 2 ^ 127 := by exact_mod_cast hx
+    unfold i128Max; omega
+  unfold gourdonL2
+  simp only [if_true, castI128_ok (le_trans (by unfold i128Min; norm_num) hm0) h2, bind, Except.bind]
+  rw [if_pos hxm]
+  rfl
+
+/-- `pi_gourdon_64` (no range check): `x < 2^63` ⇒ every check passes and the ranges hold -/
+theorem gourdon64_accept (x : ℕ) (threads : ℤ) (ay az : ℚ) (fo : GFloats)
+    (hx2 : 2 ≤ x) (hx : x < 2 ^ 63) (henv : GourdonEnv x ay az fo) :
+    gourdonL2 false x threads fo = .ok (gOutPure false x threads fo) ∧
+    GourdonRange x threads (gOutPure false x threads fo) := by
+  have hs : isqrtN x < 3037000500 := isqrt_lt_of_lt (lt_of_lt_of_le hx (by norm_num))
+  have hs1 : 1 ≤ isqrtN x := one_le_isqrt x (by omega)
+  apply gourdon_core false x threads ay az fo hx2 (lt_trans hx (by norm_num)) henv
+  · intro h; exact absurd h (by simp)
+  · obtain ⟨_, _, hy1⟩ := gY_le x fo.v
+    have h1 : (x : ℤ) / gY x fo.v ≤ (x : ℤ) := Int.ediv_le_self _ (by positivity)
+    have h2 : (x : ℤ) < 2 ^ 63 := by exact_mod_cast hx
+    unfold i64Max; omega
+  · intro _
+    have : (factorTableMax 16 : ℤ) = 4294705155 := by unfold factorTableMax; norm_num
+    rw [this]
+    have hsI : ((isqrtN x : ℕ) : ℤ) < 3037000500 := by exact_mod_cast hs
+    have hs1I : (1 : ℤ) ≤ ((isqrtN x : ℕ) : ℤ) := by exact_mod_cast hs1
+    unfold gZ clampZ
+    omega
+  · intro _; omega
+
 end Pc
